@@ -49,6 +49,14 @@ def gen_prog(rnd):
             body = [apm.simple(".even"), apm.label(f"pl{j}"), apm.data(".word", apm.num(j)), apm.assign(f"pk{j}", apm.num(rnd.choice(vals)))]
             prog.aux[nm] = apm.SrcFile(nm, body)
             host_file.stmts.append(apm.include(nm))
+    if rnd.random() < 0.25:
+        # a '.once'-guarded file included from two places: it contributes (and is listed) once
+        body = [apm.simple(".once"), apm.simple(".even"), apm.label("oncelab7"), apm.data(".word", apm.num(0o125252)), apm.assign("oncek7", apm.num(rnd.choice(vals)))]
+        prog.aux["once7.mac"] = apm.SrcFile("once7.mac", body)
+        for _ in range(2):
+            hf = rnd.choice(prog.files)
+            hf.stmts.append(apm.simple(".even"))
+            hf.stmts.append(apm.include("once7.mac"))
     try:
         ref = apm.Ref(prog).run()
     except (apm.RefError, apm.Unmodelled):
